@@ -2,5 +2,5 @@ SPECIFICATION Spec
 CONSTANTS
   N = 34
   BreakCeil = FALSE
-INVARIANTS CeilLaw TruncLaw ModLaw ClampLaw NextPow2Law Log2Law IsPow2Law DiffLaw QuotientRepresentable BitLaw WrapLaw IntervalLaw
+INVARIANTS CeilLaw TruncLaw ModLaw ClampLaw NextPow2Law Log2Law IsPow2Law DiffLaw QuotientRepresentable BitLaw SignedBitLaw WrapLaw IntervalLaw
 CHECK_DEADLOCK FALSE
